@@ -63,3 +63,29 @@ func VerifC18(t int) {
 
 // VerifC18All enumerates every generated family part (explored in parallel in one process).
 func VerifC18All() { VerifC18(verif.Choice("part", c18Templates)) }
+
+// VerifC18Set: a JSON rule SET (array) - every rule gets its OWN name, description and salience (a rule that omits desc /
+// salience gets the defaults, not its predecessor's values), and a set with a malformed non-first element (no when, no then,
+// null, no name) is rejected as a whole.
+func VerifC18Set() {
+	lib := zzkb.LoadLibrary("c18_set")
+	log := zzkb.StepLog("c18_set")
+	verif.Reach("c18:set")
+	kb := lib.GetKnowledgeBase("T", "1")
+	type want struct {
+		name, desc string
+		sal        int
+	}
+	for _, w := range []want{{"SA", "first of a set", 7}, {"SB", "", 0}, {"SC", "third", -2}} {
+		re := kb.RuleEntries[w.name]
+		verif.Assert("C18:set:"+w.name+":translation-accepted-by-the-builder", re != nil)
+		if re != nil {
+			verif.Assert("C18:set:"+w.name+":same-name-description-salience", re.RuleName == w.name && re.RuleDescription == w.desc && re.Salience == w.sal)
+		}
+	}
+	for i, what := range []string{"no-when", "no-then", "null-element", "no-name"} {
+		verif.Assert("C18:set:malformed-non-first-element-is-rejected:"+what, len(log) > i+1 && log[i+1] == "buildjson:true")
+		bad := lib.GetKnowledgeBase("BAD"+strconv.Itoa(i), "1")
+		verif.Assert("C18:set:rejected-set-adds-no-rule:"+what, bad == nil || len(bad.RuleEntries) == 0)
+	}
+}
